@@ -35,6 +35,18 @@ def edit(tree, op):
     elif k == "mkdir":
         add_parents(t, op[1])
         t[op[1]] = DIR
+    elif k == "retype":
+        # the entry changes its kind: a file becomes a folder (holding one file), a folder (with all below it) becomes a file
+        p = op[1]
+        was_dir = t.get(p, 0) is DIR
+        for q in list(t):
+            if q == p or q.startswith(p + "/"):
+                del t[q]
+        if was_dir:
+            t[p] = b"this was a folder"
+        else:
+            t[p] = DIR
+            t[p + "/inner.bin"] = b"inside what was a file"
     elif k == "mv":
         src, dst = op[1], op[2]
         add_parents(t, dst)
@@ -47,11 +59,38 @@ def edit(tree, op):
 
 
 def is_edit(op):
-    return op[0] in ("write", "rm", "mkdir", "mv")
+    return op[0] in ("write", "rm", "mkdir", "mv", "retype")
 
 
 def rp(rel):
     return "{root}" + ("/" + rel if rel else "")
+
+
+def root_arg(o):
+    """the root folder as the user may spell it: absolute (default), with a trailing separator, with a trailing /., as '.' from
+    inside, or relative to its parent (the last two need a working directory, see cwd_for)"""
+    sp = o.get("spell") or ("slash" if o.get("slash") else None)
+    base = rp(o.get("root", "") or "")
+    if sp == "slash":
+        return base + "/"
+    if sp == "slashdot":
+        return base + "/."
+    if sp == "dot":
+        return "."
+    if sp == "rel":
+        return "./" + ((o.get("root") or "").split("/")[-1] or "root")
+    return base
+
+
+def cwd_for(op, root):
+    o = op[1] if len(op) > 1 and isinstance(op[1], dict) else {}
+    sp = o.get("spell")
+    full = os.path.join(root, o.get("root") or "") if o.get("root") else root
+    if sp == "dot":
+        return full
+    if sp == "rel":
+        return os.path.dirname(full)
+    return None
 
 
 def to_args(op):
@@ -66,7 +105,7 @@ def to_args(op):
     name, o = op[0], op[1]
     a = []
     if name == "create":
-        a.append(rp(o.get("root", "")) + ("/" if o.get("slash") else ""))
+        a.append(root_arg(o))
         for f in o.get("fmts", []):
             a += ["-h", f]
         if o.get("n"):
@@ -76,7 +115,7 @@ def to_args(op):
         for p in o.get("sf", []) or []:
             a += ["-sf", rp(p)]
     elif name == "verify":
-        a.append(rp(o.get("root", "")))
+        a.append(root_arg(o))
         if o.get("dh"):
             a.append("-dh")
         if o.get("co"):
@@ -90,14 +129,14 @@ def to_args(op):
         if o.get("pl") is not None:
             a += ["-pl", o["pl"]]
     elif name == "diff":
-        a.append(rp(o.get("root", "")))
+        a.append(root_arg(o))
     elif name == "info":
         if o.get("root") is not None:
-            a.append(rp(o["root"]))
+            a.append(root_arg(o))
         for p in o.get("sf", []) or []:
             a += ["-sf", rp(p)]
     elif name == "flatten":
-        a += [rp(o.get("root", "")), o["dest"]]
+        a += [root_arg(o), o["dest"]]
     elif name == "hash":
         a += [rp(o["file"]), "-h", o["h"]]
     elif name == "xsd-schema-check":
@@ -135,6 +174,8 @@ def run_cmd(ctx, tree, op, now, cwd=None, keep=False, mtimes=None, root=None, ob
     root = root or ctx.root
     if not keep:
         sub.materialise(root, tree, mtimes=mtimes)
+    if cwd is None:
+        cwd = cwd_for(op, root)
     name, args = to_args(op)
     args = expand_args(args, root, **(subst or {}))
     if not observe:
@@ -194,7 +235,7 @@ def build(ctx, tree, oplist, now=sub.NOW0 - 1000, step=10, expect=None):
         if res is not None:
             now += step
             if expect is not None:
-                if res.exit != expect[i] or res.exc:
+                if (expect[i] is not None and res.exit != expect[i]) or res.exc:
                     f = ScenarioFailure(op, res, expect[i], i, pre)
                     if FAILURES is None:
                         raise f
